@@ -18,6 +18,8 @@ def plan(ctx):
         Obligation("shuffle.equal_elements", "xh", "c19", "shuffle_perm", param={"eq_all": True}, timeout=T * 2,
                    bounds="list of 0..4 objects that all compare EQUAL but are distinguishable (like 1, True, Decimal('1.0'))",
                    desc="shuffle is a permutation of the argument's OBJECTS even when they compare equal"),
+        Obligation("rand.api_big_bounds", "xh", "c19", "api_rand_big", timeout=T * 2, bounds="6 pairs of host int bounds of 20..31 digits (both signs, a == b); draw at either end; three call spellings through SqParser.eval (finite domain, native)",
+                   desc="rand(a, b) on host-supplied big bounds, through name lookup: an integer in [a, b] or an error"),
         Obligation("shuffle.long", "xh", "c19", "shuffle_long", timeout=T * 2, bounds="host list of 9999 / 10000 / 10001 / 20000 ints (index symbolic), first draws 0..3",
                    desc="shuffle of a list around / beyond the element cap: argument unchanged, result a permutation (or an error)"),
         Obligation("shuffle", "xh", "c19", "shuffle_perm", timeout=T * 2, bounds="list of 0..4 distinct objects (length symbolic); Fisher-Yates draws symbolic",
